@@ -12,4 +12,12 @@ HARNESSES.append(H("fileio.ownership", "C14/fileio.c", defines={"SEL_OWNERSHIP":
 HARNESSES.append(H("fileio.rw", "C14/fileio.c", defines={"SEL_RW": 1, "PX_CAP": 48, "PX_MAXIO": 16, "SNP_MAX": 40}, unwind=50,
                    unwindset=["psf_fread.0:9", "psf_fwrite.0:9", "snprintf.0:41", "snprintf.1:41"], functions=_fn,
                    bounds="file <= 32 bytes, any position <= 40, request <= 16 bytes, EINTR up to 2 in a row", **_c))
+for sel in ("SEL_VIRTUAL", "SEL_FD"):
+    HARNESSES.append(H("open_entry." + sel[4:].lower(), "C14/open_entry.c", link=["common"], stubs=["psf_log_printf", "psf_memset"],
+                       defines={sel: 1, "MF_CAP": 16, "SNP_MAX": 100, "PSF_MEMSET_MAX": 64}, unwind=8,
+                       unwindset=["snprintf.0:101", "snprintf.1:101", "psf_memset.0:65", "strlen.0:110", "psf_rand_int32.0:34"], checks="mem",
+                       include_env=("log_stub", "memfile", "memset_model", "snprintf_model", "clock_model"), timeout=300,
+                       functions=["sf_open_virtual" if sel == "SEL_VIRTUAL" else "sf_open_fd", "psf_allocate", "psf_init_files", "psf_set_file"],
+                       bounds="mode symbolic, callback set complete or missing any one callback / close_desc symbolic, SD2 or not"))
+
 META = {"assumptions": ["E-posix model of read/write/lseek/fstat/close"], "outside": ["the kernel's real behaviour; parsers/codecs only use these primitives (structural argument)", "pipe route: see DESIGN"]}
